@@ -132,10 +132,14 @@ def tested_keys(fi, subject=None):
   for x in walk_local(fi.node):
     if isinstance(x, ast.Compare) and len(x.ops) == 1 and isinstance(
         x.ops[0], (ast.In, ast.NotIn)):
+      if subject is not None and dotted(x.comparators[0]) != subject:
+        continue
       s = const_str(x.left)
       if s is None:
-        continue
-      if subject is not None and dotted(x.comparators[0]) != subject:
+        # `kind in c` with kind ranging over a literal dispatch table
+        if isinstance(x.left, ast.Name):
+          for v in loop_constants(fi, x.left.id):
+            out.setdefault(v, x)
         continue
       out.setdefault(s, x)
   return out
